@@ -248,7 +248,7 @@ func c06Check(c *core.Ctx, s fScenario) {
 				ever[h] = true
 			}
 		}
-		if !st.AfterUndo {
+		if !st.AfterUndo || st.Quiet {
 			return
 		}
 		trig := ""
